@@ -185,13 +185,28 @@ def _sliver(rng):
     return Y[idx]
 
 
+def _needle(rng):
+    """needle triangle (aspect 1e5 .. 1e7, below the zone of the Jolt solver's known finding) with the origin projecting into
+    its interior at a distance far below its length, in general orientation and any vertex order (seed C18-7: the triangle
+    normal from the two long edges loses the short one)"""
+    L = 10 ** rng.uniform(-1, 1); w = L * 10 ** rng.uniform(-6.9, -5.0); dist = L * 10 ** rng.uniform(-5, -2)
+    a = np.array([0.0, 0.0, 0.0]); b = np.array([L, 0.0, 0.0]); c = np.array([L * rng.uniform(0.3, 1.0), w, 0.0])
+    if rng.random() < 0.6:       # the short side is an edge: two vertices w apart, the third one L away
+        c = np.array([L * (1.0 + rng.uniform(-1.0, 1.0) * w / L), w, 0.0])
+    wts = np.array([rng.uniform(0.1, 1.0) for _ in range(3)]); wts /= wts.sum()
+    o = wts[0] * a + wts[1] * b + wts[2] * c + np.array([0.0, 0.0, dist])
+    q, _ = np.linalg.qr(np.array([[rng.gauss(0, 1) for _ in range(3)] for _ in range(3)]))
+    idx = list(range(3)); rng.shuffle(idx)
+    return ((np.array([a, b, c]) - o) @ q.T)[idx]
+
+
 def float_samples(n, rng):
     """a third 'moderate' (anisotropic scaling 10^[-1,1.5]), a third 'flat' (10^[-2.5,2], k >= 3), a third
     'extreme' (10^[-6,6], the twelve orders of magnitude of the property); the judge classifies each
     record by its measured conditioning"""
     return ([np.array(p) for p in PINNED] + [_rand_cfg(rng, -1.0, 1.5) for _ in range(n // 3)]
             + [_rand_cfg(rng, -2.5, 2.0, kmin=3) for _ in range(n // 6)]      # flat / needle-like, still well scaled
-            + [_sliver(rng) for _ in range(n // 3 - n // 6)]
+            + [_sliver(rng) for _ in range(n // 3 - n // 6)] + [_needle(rng) for _ in range(n // 6)]
             + [_rand_cfg(rng, -6.0, 6.0) for _ in range(n - 2 * (n // 3))])
 
 
@@ -261,7 +276,7 @@ def run(tier, seed):
     res.coverage["exhaustive"] = tier == "thorough"
     res.coverage["t1"] = sum(1 for r in recs if r["tier"] == 1)
     res.coverage["t3"] = sum(1 for r in recs if r["tier"] == 3)
-    ext = lambda r: (r["aspDec"] >= 5 or r["featDec"] < -3) if r["solver"] == "jolt" else (r["aspDec"] >= 2 or r["scaleDec"] < -1)
+    ext = lambda r: (r["aspDec"] >= 7 or (r["k"] == 4 and r["featDec"] < -3)) if r["solver"] == "jolt" else (r["aspDec"] >= 2 or r["scaleDec"] < -1)
     res.coverage["t3_regular_zone"] = sum(1 for r in recs if r["tier"] == 3 and "aspDec" in r and not ext(r))
     res.coverage["samples"] = [recs[5000], recs[len(recs) // 2], recs[-1]]
     model_check(res, tier)
